@@ -60,16 +60,19 @@ func (f *Logcount) Call(s *slip.Scope, args slip.List, depth int) slip.Object {
 			}
 		}
 	case *slip.Bignum:
-		ba := (*big.Int)(ti).Bytes()
+		bi := (*big.Int)(ti)
+		if bi.Sign() < 0 {
+			// In two's complement the zero bits of a negative integer are
+			// the one bits of its complement, (lognot x) or -x-1.
+			bi = new(big.Int).Not(bi)
+		}
+		ba := bi.Bytes()
 		for _, b := range ba {
 			for i := 0; i < 8; i++ {
 				if (b>>i)&0x01 == 1 {
 					cnt++
 				}
 			}
-		}
-		if (*big.Int)(ti).Sign() < 0 && 0 < cnt {
-			cnt--
 		}
 	default:
 		slip.TypePanic(s, depth, "integer", ti, "integer")
